@@ -413,6 +413,18 @@ def run_config_cells(impl, out):
             V(out, impl, 'ws_open_not_websocket', 'transports=websocket', 'frames %r transport %r' % (fr, w.transport(sid)), case)
     finally:
         w.teardown()
+    # ... and OPEN is the first frame even when the connect handler already sends to the new session
+    from vf.checks.c11_open import SendingConnect
+    w = peer.make_world(impl, behaviour=SendingConnect(True))
+    try:
+        s = peer.ws_open(w)
+        n += 1
+        fr = peer.ws_frames(s)
+        if not fr or not isinstance(fr[0], str) or not fr[0].startswith('0') or fr[1:3] != ['4greeting-1', '4greeting-2']:
+            V(out, impl, 'ws_open_not_websocket', 'connect_handler_sends', 'frames on a directly opened WebSocket whose connect handler sends two '
+              'greetings: %r (want OPEN first, then the greetings)' % (fr[:4],), {'cfg': 'sending_connect', 'events': []})
+    finally:
+        w.teardown()
     # allow_upgrades=False only governs advertisement; a WebSocket open is in WebSocket mode at once
     w = peer.make_world(impl, server_kwargs=dict(allow_upgrades=False))
     try:
